@@ -63,7 +63,7 @@ impl Shape {
     pub fn runs(&self) -> (Vec<(usize, usize)>, usize) {
         let mut out: Vec<(usize, usize)> = Vec::new();
         let mut pos: usize = 0;
-        let mut push = |start: usize, len: usize, pos: &mut usize, out: &mut Vec<(usize, usize)>| -> bool {
+        let push = |start: usize, len: usize, pos: &mut usize, out: &mut Vec<(usize, usize)>| -> bool {
             if len == 0 {
                 return true;
             }
